@@ -157,24 +157,65 @@ structure Nums (o : Order) (e : Exch) : Prop where
 /-- status a request of kind F / G puts the order in -/
 def pstat (k : String) : String := if k = "F" then "6" else "E"
 
+/-- nothing sent yet -/
+structure SCreated (o : Order) (e : Exch) : Prop where
+  known : e.known = false
+  pend : e.pending = none
+  status : o.status = "Z"
+
+/-- NewOrderSingle `m` in flight -/
+structure SNew (o : Order) (e : Exch) (m : Msg) (oo : Option Str) : Prop where
+  known : e.known = false
+  pend : e.pending = none
+  status : o.status = "A"
+  clne : o.clordId ≠ []
+  req : Req.ofMsg m = ⟨"D", some o.clordId, oo, some o.price, some o.qty⟩
+
+/-- no request of the client involved -/
+structure SIdle (o : Order) (e : Exch) : Prop where
+  known : e.known = true
+  pend : e.pending = none
+  status : o.status = e.base
+  base : e.base ∈ bases
+  clord : o.clordId = e.liveId
+  livene : e.liveId ≠ []
+  orig : e.base ≠ "4" → o.origClordId = none
+  rej0 : e.base = "8" → e.leaves = 0
+  nums : Nums o e
+
+/-- cancel ("F") / replace ("G") request `m` in flight -/
+structure SSent (o : Order) (e : Exch) (m : Msg) (k : String) (pr qr : Option Int) : Prop where
+  known : e.known = true
+  pend : e.pending = none
+  base : e.base ∈ bases
+  kind : k = "F" ∨ k = "G"
+  req : Req.ofMsg m = ⟨k, some o.clordId, some e.liveId, pr, qr⟩
+  orig : o.origClordId = some e.liveId
+  livene : e.liveId ≠ []
+  clne : o.clordId ≠ []
+  status : o.status = pstat k
+  rej0 : e.base = "8" → e.leaves = 0
+  nums : Nums o e
+
+/-- request `p` acknowledged as pending by the exchange -/
+structure SPend (o : Order) (e : Exch) (p : PReq) : Prop where
+  known : e.known = true
+  pend : e.pending = some p
+  kind : p.kind = "F" ∨ p.kind = "G"
+  pcl : p.clOrdId = o.clordId
+  orig : o.origClordId = some e.liveId
+  livene : e.liveId ≠ []
+  clne : o.clordId ≠ []
+  status : o.status = pstat p.kind
+  live : live e.base = true
+  nums : Nums o e
+
 inductive Sync0 : Order → List Msg → Exch → Prop
-  /-- nothing sent yet -/
-  | created (o : Order) (e : Exch) : e.known = false → e.pending = none → o.status = "Z" → Sync0 o [] e
-  /-- NewOrderSingle in flight -/
-  | newSent (o : Order) (e : Exch) (m : Msg) (oo : Option Str) : e.known = false → e.pending = none →
-      o.status = "A" → o.clordId ≠ [] →
-      Req.ofMsg m = ⟨"D", some o.clordId, oo, some o.price, some o.qty⟩ → Sync0 o [m] e
-  /-- no request of the client involved -/
-  | idle (o : Order) (e : Exch) : e.known = true → e.pending = none → o.status = e.base → e.base ∈ bases →
-      o.clordId = e.liveId → e.liveId ≠ [] → (e.base ≠ "4" → o.origClordId = none) → Nums o e → Sync0 o [] e
-  /-- cancel / replace request in flight -/
-  | reqSent (o : Order) (e : Exch) (m : Msg) (k : String) (pr qr : Option Int) : e.known = true →
-      e.pending = none → e.base ∈ bases → (k = "F" ∨ k = "G") →
-      Req.ofMsg m = ⟨k, some o.clordId, some e.liveId, pr, qr⟩ → o.origClordId = some e.liveId →
-      e.liveId ≠ [] → o.status = pstat k → Nums o e → Sync0 o [m] e
-  /-- cancel / replace request acknowledged as pending by the exchange -/
-  | reqPending (o : Order) (e : Exch) (p : PReq) : e.known = true → e.pending = some p →
-      (p.kind = "F" ∨ p.kind = "G") → p.clOrdId = o.clordId → o.origClordId = some e.liveId →
-      e.liveId ≠ [] → o.status = pstat p.kind → live e.base = true → Nums o e → Sync0 o [] e
+  | created {o : Order} {e : Exch} (h : SCreated o e) : Sync0 o [] e
+  | newSent {o : Order} {e : Exch} (m : Msg) (oo : Option Str) (h : SNew o e m oo) : Sync0 o [m] e
+  | idle {o : Order} {e : Exch} (h : SIdle o e) : Sync0 o [] e
+  | reqSent {o : Order} {e : Exch} (m : Msg) (k : String) (pr qr : Option Int) (h : SSent o e m k pr qr) :
+      Sync0 o [m] e
+  | reqPending {o : Order} {e : Exch} (p : PReq) (h : SPend o e p) : Sync0 o [] e
 
 end AsyncFix.Model.OrderLink
